@@ -298,6 +298,10 @@ func (pn *parsNorm) condKey(e ast.Expr) string {
 					return fmt.Sprintf("%s>=%d", l, v+1)
 				case token.GEQ:
 					return fmt.Sprintf("%s>=%d", l, v)
+				case token.LEQ: // c <= k is !(c >= k+1)
+					return fmt.Sprintf("!%s>=%d", l, v+1)
+				case token.LSS: // c < k is !(c >= k)
+					return fmt.Sprintf("!%s>=%d", l, v)
 				}
 			}
 		}
@@ -333,6 +337,12 @@ func (pn *parsNorm) stmts(list []ast.Stmt) string {
 		// `if C { continue }` followed by the rest  ==  `if !C { rest }`
 		if is, ok := s.(*ast.IfStmt); ok && is.Else == nil && is.Init == nil && len(is.Body.List) == 1 {
 			if br, ok := is.Body.List[0].(*ast.BranchStmt); ok && br.Tok == token.CONTINUE && !errGuard(pn.info, is.Cond) {
+				rest := pn.stmts(list[i+1:])
+				out = append(out, "if "+negKey(pn.condKey(is.Cond))+" { "+rest+" }")
+				return strings.Join(out, " ; ")
+			}
+			// `if C { return }` (nothing returned) followed by the rest  ==  `if !C { rest }`
+			if rt, ok := is.Body.List[0].(*ast.ReturnStmt); ok && len(rt.Results) == 0 && !errGuard(pn.info, is.Cond) && i+1 < len(list) {
 				rest := pn.stmts(list[i+1:])
 				out = append(out, "if "+negKey(pn.condKey(is.Cond))+" { "+rest+" }")
 				return strings.Join(out, " ; ")
